@@ -1,5 +1,6 @@
 """C01 -- every command executes exactly once, fed by its finished dependencies."""
 import sys
+import collections
 
 import z3
 
@@ -32,6 +33,7 @@ def plan(tier, seed):
     for extra in (dict(cls='NoneNode'), dict(cls='LazyNode'), dict(names='case')):
         for via in ('api', 'source'):
             jobs.append(dict(kind='graph', N=nmax, kinds=4 if tier == 'thorough' else 3, via=via, hist=2, **extra))
+    jobs.append(dict(kind='graph', N=3, kinds=3, via='api', hist=1, replace=True))
     jobs.append(dict(kind='memo'))
     return jobs
 
@@ -105,7 +107,7 @@ def expected(N, edge, cls='Node', style=None):
     return [ev(i) for i in range(N)]
 
 
-def run_concrete(N, edge, via, history, cls='Node', style=None):
+def run_concrete(N, edge, via, history, cls='Node', style=None, replace=None):
     """-> list of (label, ok) facts from one real run of the scenario"""
     import mpvnodes
     del mpvnodes.LOG[:]
@@ -128,6 +130,19 @@ def run_concrete(N, edge, via, history, cls='Node', style=None):
             r = p.commands[names[op]].result
             facts.append(('reading %s again returns the same result object' % names[op], r is first[op]))
     facts.append(('nothing executes during later run()/result accesses', list(mpvnodes.LOG) == log))
+    if replace is not None:
+        # the documented way to change a program: delete a command and add a new one under the same result name,
+        # then run again: exactly the new command executes, once
+        j = replace
+        old = p.commands[names[j]]
+        args = collections.OrderedDict((a.name, a.value) for a in old.arguments)
+        del p.commands[names[j]]
+        p.add_command(type(old), names[j], args)
+        before = list(mpvnodes.LOG)
+        p.run()
+        delta = list(mpvnodes.LOG)[len(before):]
+        facts.append(('after replacing %s, run() executes the new command exactly once and nothing else' % names[j], delta == [names[j]]))
+        facts.append(('the replaced %s is finished after run()' % names[j], p.commands[names[j]].is_finished is True))
     return facts, log
 
 
@@ -161,11 +176,12 @@ def harness(ctx, cfg):
         if sum(1 for j in range(N) if edge.get((i, j)) == 1) > 3:
             raise symx.Abort("more than three direct references (bound)")
     history = [ctx.choice('op%d' % t, N + 1) for t in range(cfg.get('hist', 1))]
+    replace = ctx.choice('replace', N) if cfg.get('replace') else None
     rec = {'kind': 'graph', 'N': N, 'edges': [[i, j, k] for (i, j), k in sorted(edge.items()) if k], 'via': cfg['via'], 'history': history,
-           'cls': cfg.get('cls', 'Node'), 'names': cfg.get('names')}
+           'cls': cfg.get('cls', 'Node'), 'names': cfg.get('names'), 'replace': replace}
     MPilotError = sys.modules['mpilot.exceptions'].MPilotError
     try:
-        facts, log = run_concrete(N, edge, cfg['via'], history, cfg.get('cls', 'Node'), cfg.get('names'))
+        facts, log = run_concrete(N, edge, cfg['via'], history, cfg.get('cls', 'Node'), cfg.get('names'), replace)
     except MPilotError as e:
         return {'outcome': 'mpilot:' + type(e).__name__, 'obligations': [('acyclic program runs without error (%s)' % type(e).__name__, z3.BoolVal(False))],
                 'groups': {}, 'replay': rec, 'validated': True}
@@ -205,7 +221,7 @@ def confirm(rec, label):
     edge = {(i, j): k for i, j, k in rec['edges']}
     MPilotError = sys.modules['mpilot.exceptions'].MPilotError
     try:
-        facts, log = run_concrete(rec['N'], edge, rec['via'], rec['history'], rec.get('cls', 'Node'), rec.get('names'))
+        facts, log = run_concrete(rec['N'], edge, rec['via'], rec['history'], rec.get('cls', 'Node'), rec.get('names'), rec.get('replace'))
     except MPilotError as e:
         return True, 'real run raised %s' % type(e).__name__
     bad = [l for l, ok in facts if not ok]
